@@ -99,10 +99,13 @@ def gen_config(H: Chooser, tier):
     n = 1 + H.draw(12)
     if H.draw(3) == 2:
         n += H.draw(29 if tier == "quick" else 49)
+    cfg_nan = H.draw(3) == 0
     hist = []
     for i in range(n):
         # small value alphabet -> ties, repeats, plateaus, late improvements
         comps = [float(H.pick([0, 1, 1, 2, 3, 5, -1, 2.5, 1e-7, 10**6])) for _ in range(k)]
+        if not multi and cfg_nan and H.draw(5) == 0:
+            comps = [float("nan")]  # a fitness function that is undefined for some programs
         hist.append({"text": H.pick(HOSTILE) + (str(i) if H.draw(2) else ""), "comps": comps})
     # how individuals are presented to tracker.evaluate: batch boundaries
     batches = []
@@ -407,6 +410,8 @@ def run_simplegp(ctx):
     k = 1 + H.draw(3)
     n_extra = H.draw(4)
     only_best = bool(H.draw(2))
+    mdir = bool(H.draw(2))  # direction
+    mform = H.pick(["bool", "list"])  # one objective may be declared as `minimize=True` or as `minimize=[True]`
     pop = 4 + H.draw(6)
     evals = pop * (1 + H.draw(3))
     seed = H.draw(1000)
@@ -418,7 +423,7 @@ def run_simplegp(ctx):
     def extra_of(j, text):
         return [str(len(text)), str(text.count("(")), text[:4], str(text.count(","))][j]
 
-    ctx.sample = {"mode": "simplegp", "objectives": k, "extra_fields": n_extra, "only_best": only_best, "population": pop, "evaluations": evals}
+    ctx.sample = {"mode": "simplegp", "objectives": k, "extra_fields": n_extra, "only_best": only_best, "population": pop, "evaluations": evals, "minimize": mdir, "minimize_given_as": mform}
 
     def execute(crash_at):
         S2 = Chooser("S2", sched_seed)
@@ -434,12 +439,12 @@ def run_simplegp(ctx):
             def ff(p):
                 fs.event("fitness")
                 c = comps_of(str(p))
-                return c if k > 1 else c[0]
+                return c if (k > 1 or mform == "list") else c[0]
 
             extras = {f"x{j}": (lambda j: lambda p: extra_of(j, str(p)))(j) for j in range(n_extra)} or None
             with installed_clock(clock), installed_fs(fs):
                 try:
-                    gp = SimpleGP(fitness_function=ff, grammar=g, minimize=([False] * k if k > 1 else False), max_depth=4, max_time=10**6,
+                    gp = SimpleGP(fitness_function=ff, grammar=g, minimize=([mdir] * k if (k > 1 or mform == "list") else mdir), max_depth=4, max_time=10**6,
                                   max_evaluations=evals, csv_output="/simfs/simple.csv", csv_extra_fields=extras,
                                   only_record_best_individuals=only_best, seed=seed, population_size=pop, elitism=1, novelty=1,
                                   mutation_probability=0.5, crossover_probability=0.5)
@@ -475,6 +480,17 @@ def run_simplegp(ctx):
         if rows[0] != want_header:
             ctx.violate(f"C20/simplegp/{where}/header", f"header {rows[0]} expected {want_header}")
             return False
+        if only_best and k == 1:
+            # "only strict improvements when so configured": with one objective every row strictly improves on the previous one
+            try:
+                vals = [float(r[2]) for r in rows[1:]]
+            except (ValueError, IndexError):
+                vals = []
+            for x, y in zip(vals, vals[1:]):
+                if not (y < x if mdir else y > x):
+                    ctx.violate(f"C20/simplegp/{where}/best-only-log-holds-a-non-improvement",
+                                f"best-only log of a one-objective run (minimize={mdir!r} given as {mform}) has Fitness0 {x} followed by {y}")
+                    return False
         for r in rows[1:]:
             if len(r) != len(want_header):
                 ctx.violate(f"C20/simplegp/{where}/row-arity", f"row {r}")
